@@ -3,7 +3,7 @@
 language @NAME@(go);
 
 package = "scratch/@NAME@"
-extraTypes = ["Extra1", "Extra2 -> Expr", "Extra3 -> Expr -> Other"]
+extraTypes = ["Extra1", "Extra2 -> Expr", "Extra3 -> Expr"]
 @OPTIONS@
 
 :: lexer
@@ -16,7 +16,7 @@ num: /[0-9]+/
 
 %input Root;
 
-%interface Expr, Other;
+%interface Expr;
 
 Root -> Root : Expr ;
 Expr -> Expr :
